@@ -452,6 +452,33 @@ example : SelectsJointly 1 (chainSample (fun _ => [1/2, 1/2 - 1/2^21])) [1] (1/2
     norm_num [preimageLen, cum]
   rwa [hv] at h
 
+/-! ## H'': factored trajectories -/
+
+/-- **H7** factored trajectories: `CooperativeModel::sampleSR` repeated on one object, joint action chosen by any function of
+    the completed steps: one box, volume = product of the selected rows' entries over all steps and factors -/
+theorem coopRollout_selects_jointly (S A : List Nat) (parents : List ParentSet) (T : List (List (List Rat)))
+    (pol : List Nat → List Nat) (s0 : List Nat) (tr : List Nat)
+    (hv : ChainValid (coopRolloutRow S A parents T pol s0) [] tr) :
+    SelectsJointly tr.length (coopRollout S A parents T pol s0) tr
+      (chainProb (coopRolloutRow S A parents T pol s0) [] tr) :=
+  chain_selects_jointly _ tr hv
+
+/-- the first step of a factored rollout is `coopSampleS` (the transition part of `sampleSR`) -/
+theorem coopRollout_head (S A : List Nat) (parents : List ParentSet) (T : List (List (List Rat)))
+    (pol : List Nat → List Nat) (s0 : List Nat) (us : List Rat)
+    (h1 : parents.length = T.length) (h2 : T.length = us.length) :
+    coopRollout S A parents T pol s0 us = coopSampleS S A parents T s0 (pol []) us := by
+  unfold coopRollout chainSample
+  rw [chainGo_eq_iff]
+  have hl := coopSampleS_length S A parents T s0 (pol []) us h1 h2
+  refine ⟨hl.symm, fun i hi => ?_⟩
+  rw [coopSampleS_getD S A parents T s0 (pol []) us h1 h2 i hi]
+  have hn : i < parents.length := by omega
+  have hlen : (([] : List Nat) ++ (coopSampleS S A parents T s0 (pol []) us).take i).length = i := by
+    simp [hl]; omega
+  unfold coopRolloutRow
+  simp only [hlen, Nat.div_eq_of_lt hn, Nat.mod_eq_of_lt hn, if_true, Nat.zero_mul, List.take_zero]
+
 /-! ## K: a copied engine -/
 
 /-- **K1** with a COPIED engine (both samples computed from the same draw) the outcome (0, 1) of two scans of
